@@ -193,3 +193,17 @@ def write_once_then_upload(client, index, subindex, data, size):
     write_once_and_close(ws, data)
     rs = ReadableStream(client, index, subindex)
     return upload_all(rs)
+
+
+def write_then_close(stream, b):
+    """what `with client.open(...) as f: f.write(b)` does when the write fails: the stream is still closed"""
+    from env import rt
+    from canopen.sdo.exceptions import SdoError
+    failed = False
+    try:
+        stream.write(b)
+    except SdoError:
+        failed = True
+        rt.emit("write-failed")
+    stream.close()
+    return failed
